@@ -56,6 +56,21 @@ def internal_attrs():
     return _INTERNAL["attrs"]
 
 
+def internal_chars():
+    """private-use characters that the library's source names in \\u{...} escapes: its internal markers (optional word, concatenation,
+    automatic pause, ...) -- as characters of the INPUT"""
+    if "chars" not in _INTERNAL:
+        cps = set()
+        for f in sorted(os.listdir(os.path.join(core.REPO, "src"))):
+            if f.endswith(".rs"):
+                for h in re.findall(r"\\u\{([0-9A-Fa-f]{4,6})\}", open(os.path.join(core.REPO, "src", f), encoding="utf-8").read()):
+                    cp = int(h, 16)
+                    if 0xE000 <= cp <= 0xF8FF or cp >= 0xF0000:
+                        cps.add(cp)
+        _INTERNAL["chars"] = [chr(c) for c in sorted(cps) if c <= 0x10FFFF] or ["\uf8fd", "\uf8fe", "\uf8fa"]
+    return _INTERNAL["chars"]
+
+
 def internal_names():
     """upper-case identifiers the library uses for elements it creates itself (TEMP_NAME, ...) -- as intent names in the input"""
     if "names" not in _INTERNAL:
@@ -91,9 +106,20 @@ class Hostile:
             g = gen_degen.Degenerate(r, max_depth=r.choice([2, 3, 4, 5]), id_policy=r.choice(["none", "some", "duplicate"]), p_empty=r.choice([0.05, 0.15, 0.3]), size_cap=r.choice([12, 30, 60]))
             t = g.expression()
             return t.xml(), "degenerate", t
-        if k < 0.40:
+        if k < 0.365:
             t = gen.Textbook(r, max_depth=r.choice([2, 3, 4])).expression()[0]
             return t.xml(), "textbook", t
+        if k < 0.40:
+            # the library's own marker characters inside the text of an otherwise ordinary expression (alone, leading, trailing, doubled, in the middle)
+            t = gen.Textbook(r, max_depth=r.choice([1, 2, 3])).expression()[0]
+            leaves = [n for n, _ in t.walk() if n.kids is None and n.tag in ("mi", "mn", "mtext", "mo")]
+            for n in r.sample(leaves, min(len(leaves), r.randint(1, 3))):
+                c = r.choice(internal_chars())
+                base = r.choice([n.text or "", "abcdefgh", "the", ""])
+                n.text = r.choice([c, c + base, base + c, base[:1] + c + base[1:], c + base + c, c + c, base + c + c + "x"])
+                if r.random() < 0.5:
+                    n.tag = r.choice(["mtext", "mi"])
+            return t.xml(), "marker-text", t
         if k < 0.52:
             return self.arity(), "arity", None
         if k < 0.60:
